@@ -21,6 +21,7 @@ type verifOllaStep struct {
 	Kind  map[string]string   `json:"kind"`
 	Lists map[string][]string `json:"lists"`
 	LB    string              `json:"lb"`
+	Eng   string              `json:"engine"`
 	Prio  map[string]int      `json:"prio"`
 	E     string              `json:"e"`
 	B     string              `json:"b"` // up | sick | down
@@ -95,9 +96,9 @@ func TestVerif_Olla(t *testing.T) {
 		for i, n := range names {
 			opts[i] = verifEndpointOpt{Type: boot.Kind[n], Priority: 100 * boot.Prio[n], Models: append([]string{}, boot.Lists[n]...)}
 		}
-		stk, err := verifBoot("sherpa", boot.LB, "auto", opts, nil)
+		stk, err := verifBoot(boot.Eng, boot.LB, "auto", opts, nil)
 		if err != nil {
-			emit("Boot", "scn", sn, "booted", false, "kind", boot.Kind, "lb", boot.LB, "prio", boot.Prio, "lists", boot.Lists, "known", map[string][]string{}, "status", map[string]string{})
+			emit("Boot", "scn", sn, "booted", false, "kind", boot.Kind, "engine", boot.Eng, "lb", boot.LB, "prio", boot.Prio, "lists", boot.Lists, "known", map[string][]string{}, "status", map[string]string{})
 			return
 		}
 		defer stk.Close()
@@ -117,7 +118,7 @@ func TestVerif_Olla(t *testing.T) {
 				return zzverif.Plan{Kind: "ok", Status: 200, N: 2}
 			}
 		}
-		emit("Boot", "scn", sn, "booted", true, "kind", boot.Kind, "lb", boot.LB, "prio", boot.Prio, "lists", boot.Lists, "known", stk.verifOllaKnown(), "status", stk.statuses())
+		emit("Boot", "scn", sn, "booted", true, "kind", boot.Kind, "engine", boot.Eng, "lb", boot.LB, "prio", boot.Prio, "lists", boot.Lists, "known", stk.verifOllaKnown(), "status", stk.statuses())
 		reqNo := 0
 		for _, st := range steps[1:] {
 			switch st.Op {
